@@ -1,7 +1,7 @@
 /-
 C10 at the ObjectSet-controller level, part 3: the writes on the ObjectSet itself (finalizer,
 revision, status update) when no third-party operation is scheduled, and the tail of the pass
-(`activePhases`, `finish`).  Core Lean only.
+(`activePhasesCore`, `finish`).  Core Lean only.
 -/
 import Pko.Lemmas.C10SetPhases
 
@@ -10,7 +10,7 @@ open Pko.Kube Pko.Model.Phase Pko.Model.ObjectSet Pko.Model.Status
 open Pko.Props.C10
 
 /-- No third-party operation is scheduled, neither on ObjectSets nor on managed objects, and no
-remote phase reference is left over from an earlier pass (`activePhases` always resets them). -/
+remote phase reference is left over from an earlier pass (`activePhasesCore` always resets them). -/
 structure QuietSys (s : Sys) : Prop where
   sets : s.setEnv = []
   objs : s.w.env = []
@@ -137,9 +137,9 @@ theorem activePhases_ok (cfg : Cfg) (rm : Remotes) (s : Sys) (mem : OSet) (w : W
     (hl : ∀ ph ∈ mem.phases, ph.cls = "")
     (h : reconcilePhases cfg mem.owner (lookupPrev s mem) (rm.recon mem) mem.phases s.w [] = (w, .ok (co, failing)))
     (hr : w.remoteRefs = []) :
-    activePhases cfg rm s mem =
+    activePhasesCore cfg rm s mem =
       finish { s with w := { w with remoteRefs := [] } } (deriveStatus mem co failing) .ok := by
-  simp only [activePhases, hd, Bool.false_eq_true, ↓reduceIte, h, afterPhases_local rm mem _ w hl, hr,
+  simp only [activePhasesCore, hd, Bool.false_eq_true, ↓reduceIte, h, afterPhases_local rm mem _ w hl, hr,
     List.foldl_nil]
 
 end Pko.Props.C10Set
